@@ -25,7 +25,7 @@ def snapshot(U):
     """identity-level state of the whole pool, split in components"""
     P = U.pool
     S = {"containment": {}, "parents": {}, "connections": {}, "reference_sets": {}, "instances": {},
-         "data": {}, "top": {}, "attrs": {}}
+         "data": {}, "top": {}, "attrs": {}, "stored": {}}
     for N in P["netlist"]:
         S["containment"][id(N)] = [id(x) for x in N.libraries]
         t = N.top_instance
@@ -63,6 +63,18 @@ def snapshot(U):
         S["connections"][id(w)] = [id(x) for x in w.pins]
     for E in U.first_class():
         S["data"][id(E)] = {str(k): freeze(E.data[k]) for k in E.data}
+    # every primitive slot value as stored (a flag written before the refusal, hidden by a getter)
+    import enum
+    S["stored"] = {}
+    for kind in ("netlist", "library", "definition", "port", "cable", "instance", "pin", "wire"):
+        for e in P[kind]:
+            vals = []
+            for klass in type(e).__mro__:
+                for slot in getattr(klass, "__slots__", ()):
+                    v = getattr(e, slot, None)
+                    if isinstance(v, (bool, int, str, type(None), enum.Enum)):
+                        vals.append((slot, str(v)))
+            S["stored"][id(e)] = sorted(vals)
     return S
 
 
